@@ -71,6 +71,9 @@ type config struct {
 	Caps     map[uint16]int `json:"queue_capacities"`
 	Alphabet []event        `json:"alphabet"`
 	Phase    int            `json:"initial_advance_sec"` // shifts the first request relative to the purge ticker
+	AgeCap   int            `json:"age_cap_sec,omitempty"` // long-horizon configs: ages above the cap are merged in the state key
+	Depth    int            `json:"depth,omitempty"`
+	Prefix   []int          `json:"prefix,omitempty"` // the search of this config is rooted after these events (sharding)
 }
 
 const unknownChain = 77
@@ -92,13 +95,14 @@ type sys struct {
 	lastForward map[pair]time.Time
 	lastDrop    map[pair]time.Time
 	lastReq     map[pair]time.Time
+	nForward    map[pair]int
 	start       time.Time
 }
 
 func newSys(cfg *config) *sys {
 	s := &sys{cfg: cfg, clk: &hclock{now: time.Unix(1_700_000_000, 0)}, reqC: make(chan *gossipv1.ObservationRequest),
 		chains: map[vaa.ChainID]chan *gossipv1.ObservationRequest{}, done: make(chan struct{}),
-		lastForward: map[pair]time.Time{}, lastDrop: map[pair]time.Time{}, lastReq: map[pair]time.Time{}}
+		lastForward: map[pair]time.Time{}, lastDrop: map[pair]time.Time{}, lastReq: map[pair]time.Time{}, nForward: map[pair]int{}}
 	s.start = s.clk.now
 	for c, k := range cfg.Caps {
 		s.chains[vaa.ChainID(c)] = make(chan *gossipv1.ObservationRequest, k)
@@ -276,6 +280,7 @@ func (s *sys) Apply(ei int, hist []int, check bool) {
 		}
 		if forwarded {
 			s.lastForward[p] = now
+			s.nForward[p]++
 		} else {
 			s.lastDrop[p] = now
 		}
@@ -298,7 +303,11 @@ func (s *sys) Key() string {
 	var ks []string
 	age := func(m map[pair]time.Time, p pair) int64 {
 		if t, ok := m[p]; ok {
-			return int64(s.clk.now.Sub(t) / time.Second)
+			a := int64(s.clk.now.Sub(t) / time.Second)
+			if s.cfg.AgeCap > 0 && a > int64(s.cfg.AgeCap) {
+				a = int64(s.cfg.AgeCap) // older than suppression window + two purge periods: no obligation depends on the exact age
+			}
+			return a
 		}
 		return -1
 	}
@@ -307,7 +316,17 @@ func (s *sys) Key() string {
 		seen[p] = true
 	}
 	for p := range seen {
-		ks = append(ks, fmt.Sprintf("%d/%s:f%d:d%d:r%d", p.chain, p.tx, age(s.lastForward, p), age(s.lastDrop, p), age(s.lastReq, p)))
+		k := fmt.Sprintf("%d/%s:f%d:d%d:r%d", p.chain, p.tx, age(s.lastForward, p), age(s.lastDrop, p), age(s.lastReq, p))
+		if s.cfg.AgeCap > 0 {
+			// long-horizon configs: an entry that was forwarded, expired and forwarded AGAIN is kept apart from
+			// one forwarded for the first time (the implementation's bookkeeping may differ between the two)
+			n := s.nForward[p]
+			if n > 3 {
+				n = 3
+			}
+			k += fmt.Sprintf(":n%d", n)
+		}
+		ks = append(ks, k)
 	}
 	sort.Strings(ks)
 	phase := int64(s.clk.now.Sub(s.start)/time.Second) % 420
@@ -346,6 +365,23 @@ func configs() []config {
 			mk(fmt.Sprintf("two-chains-cap2-cap1-phase%d", phase), map[uint16]int{2: 2, 4: 1}, []uint16{2, 4, unknownChain}, []string{"a"}, []int{60, 420, 660, 661, 1080}, phase),
 			mk(fmt.Sprintf("cap0-and-cap1-phase%d", phase), map[uint16]int{255: 0, 2: 1}, []uint16{255, 2}, []string{"a"}, []int{240, 661, 1080}, phase))
 	}
+	// long horizon: few events, many steps - histories in which an entry expires, is forwarded again and
+	// interacts with a younger entry over several purge periods
+	lh := mk("long-horizon-two-tx", map[uint16]int{2: 64}, []uint16{2}, []string{"a", "b"}, []int{240, 420}, 0)
+	var noDrain []event // no drain: the queue never fills
+	for _, e := range lh.Alphabet {
+		if e.Kind != "drain" {
+			noDrain = append(noDrain, e)
+		}
+	}
+	lh.Alphabet = noDrain
+	lh.AgeCap, lh.Depth = 1500, 9
+	for first := range lh.Alphabet { // one shard per first event
+		c := lh
+		c.Name = fmt.Sprintf("%s-first-%s", lh.Name, lh.Alphabet[first])
+		c.Prefix = []int{first}
+		out = append(out, c)
+	}
 	return out
 }
 
@@ -375,6 +411,9 @@ func main() {
 		if len(c.Alphabet) > 10 {
 			d = depth - 1
 		}
+		if c.Depth > 0 {
+			d = c.Depth + r.Pick(0, 3) - len(c.Prefix)
+		}
 		t0 := time.Now()
 		// determinism self-test: the same history twice gives the same key
 		h := []int{0, 1, len(c.Alphabet) - 1, 0}
@@ -382,7 +421,7 @@ func main() {
 		if k1 != k2 {
 			ev.Broken("determinism self-test failed: %s vs %s", k1, k2)
 		}
-		st := mc.BFS(func() mc.Sys { return newSys(c) }, nil, d, 400000, nil)
+		st := mc.BFS(func() mc.Sys { return newSys(c) }, c.Prefix, d, 400000, nil)
 		r.Add("states", st.States)
 		r.Add("transitions", st.Transitions)
 		r.Add("traces_validated_against_impl", st.Builds)
